@@ -38,7 +38,8 @@ def parse_out(o):
 def parse_line(line):
     p = line.split()
     h = p[0].split(":")
-    return h[0], (h[1] if len(h) > 1 else ""), [int(x) for x in p[1:]]
+    tag = h[1] if len(h) > 1 else ""
+    return h[0], gen.TYPE_ALIAS.get(tag, tag), [int(x) for x in p[1:]]
 def tdiv(a, b):
     q = abs(a) // abs(b)
     return q if (a >= 0) == (b >= 0) else -q
@@ -197,6 +198,9 @@ class C04(Suite):
             for v in vals:
                 out.append("to_fixed:%s %d" % (t, v))
                 if (v & 7) == 0 or abs(v) < 300: out.append("to_fixed_mk:%s %d" % (t, v))
+                # implicit promotion in mixed arithmetic: 0 + n, n + 0, 0 - n (negated), n / 1
+                if (v & 3) == 0 or abs(v) < 300 or abs(v) > 2**30:
+                    out.append("add_i:%s 0 %d" % (t, v)); out.append("radd_i:%s 0 %d" % (t, v)); out.append("rdiv_i:%s 65536 %d" % (t, v))
             xs = set(pool) | {v * 65536 + d for v in (lo, hi, lo - 1, hi + 1, 0, -1, 1) for d in (-1, 0, 1, 65535, 65536)}
             for _ in range(m): xs.add(gen.strat(rng))
             for x in sorted(xs):
@@ -204,11 +208,16 @@ class C04(Suite):
         return out
     def nontrivial(self, fn, tag, a):
         lo, hi = int_type_range(tag)
+        if fn in ("add_i", "radd_i", "rdiv_i"): return abs(a[1]) >= 2**31 - 2
         if fn.startswith("to_fixed"): return abs(a[0]) >= 2**31 - 2
         k = a[0] >> 16
         return not (lo + 1 <= k <= hi - 1)
     def oracle(self, fn, tag, a, r):
         lo, hi = int_type_range(tag)
+        if fn in ("add_i", "radd_i", "rdiv_i"):
+            n = a[1]
+            if abs(n) <= 2**31 - 1: return None if r == n * 65536 else "implicit promotion of (%s)%d in %s gives raw %d, expected %d" % (tag, n, fn, r, n * 65536)
+            return None if isnan_raw(r) else "implicit promotion of (%s)%d in %s gives raw %d, not NaN" % (tag, n, fn, r)
         if fn.startswith("to_fixed"):
             n = a[0]
             if abs(n) <= 2**31 - 1: return None if r == n * 65536 else "fixed(%d) has raw %d, expected %d" % (n, r, n * 65536)
@@ -228,6 +237,14 @@ class C06(Suite):
             for b in rng.sample(vals, 12) + [a, NANP, -NANP, -a if a != I64MIN else 0]:
                 if b == I64MIN or a == I64MIN: continue
                 for f in ("lt", "le", "gt", "ge", "eq", "ne"): out.append("%s %d %d" % (f, a, b))
+        # close pairs at every magnitude (comparisons that go through a narrower or a floating type lose them)
+        for k in range(1, 63):
+            for _ in range(3 if tier == "quick" else 40):
+                x = rng.randrange(2**k, 2**(k + 1)); x = rng.choice((x, (x >> 16) << 16, -x, -((x >> 16) << 16)))
+                for d in (1, 2, 3, 65535, 65536, 65537, rng.randrange(1, 2**max(1, k - 50)), 2**32, 2**32 + 1):
+                    for y in (x + d, x - d):
+                        if abs(y) <= NANP and abs(x) <= NANP:
+                            for f in ("lt", "le", "gt", "ge", "eq", "ne"): out.append("%s %d %d" % (f, x, y)); out.append("%s %d %d" % (f, y, x))
         n = 3000 if tier == "quick" else 200000
         for v in vals + gen.strat_list(rng, n):
             if v == I64MIN: continue
@@ -284,6 +301,15 @@ class C18(Suite):
                 out.append("shr %d %d" % (x, r)); out.append("shl %d %d" % (x, r))
             for r in (-1, -2, -63, -64, -65, -2**31, -2**31 + 1, -rng.randrange(1, 2**31)):
                 out.append("shr %d %d" % (x, r)); out.append("shl %d %d" % (x, r))
+        # every power of two and its neighbours, both signs, with every count (quick: counts that move it across
+        # bit 47, 62, 63 and a few others)
+        for k in range(0, 63):
+            for x0 in ((1 << k), (1 << k) - 1, (1 << k) + 1, 3 << max(0, k - 1)):
+                for x in (x0, -x0):
+                    if not finite(x): continue
+                    rs = range(0, 64) if tier != "quick" else sorted({0, 1, 16, 32, 63, max(0, 46 - k), max(0, 47 - k), max(0, 48 - k), max(0, 61 - k), max(0, 62 - k), max(0, 63 - k), min(63, 64 - k), k, min(63, k + 1), max(0, k - 1)})
+                    for r in rs:
+                        out.append("shr %d %d" % (x, r)); out.append("shl %d %d" % (x, r))
         for _ in range(n):
             x = gen.strat(rng); r = rng.randrange(0, 64)
             out.append("shr %d %d" % (x, r)); out.append("shl %d %d" % (x, r))
@@ -334,6 +360,16 @@ class C17(Suite):
             a = gen.strat(rng, 8)
             if lo <= k <= hi and k != 0 and finite(a * k):
                 out += ["mul_s:%s %d %d" % (t, a, k), "rmul_s:%s %d %d" % (t, a, k), "div_s:%s %d %d" % (t, a * k, k)]
+        # a*n straddling the overflow threshold, for every integral type and the large values of it
+        for t in INT_TYPES:
+            lo, hi = int_type_range(t)
+            for _ in range(12 if tier == "quick" else 300):
+                k = rng.choice([hi, hi - 1, hi // 2 + 1, hi // 2, rng.randrange(max(1, hi // 2), hi + 1), rng.randrange(1, hi + 1)] + ([lo, lo + 1, rng.randrange(lo, 0)] if lo < 0 else []))
+                if k == 0: continue
+                q = (2**63) // abs(k)
+                for a in (q, q - 1, q + 1, q + rng.randrange(0, 1 + q // 64), q - rng.randrange(0, 1 + q // 64), 2 * q, q // 2 + 1):
+                    for sa in (a, -a):
+                        if abs(sa) <= F: out += ["mul_s:%s %d %d" % (t, sa, k), "rmul_s:%s %d %d" % (t, sa, k), "muleq_s:%s %d %d" % (t, sa, k)]
         for a in rng.sample(fin, min(len(fin), 200)):
             out += ["add %d %d" % (a, -a), "sub %d %d" % (a, a), "mul %d 65536" % a, "div %d 65536" % a]
         # a-b == a+(-b) and commutativity at the overflow boundaries
@@ -356,7 +392,8 @@ class C17(Suite):
     # the laws themselves are theorems over the model; the per-operation oracles are those of C01-C03
     def oracle(self, fn, tag, a, r):
         if fn in ("add", "sub"): return C01().oracle(fn, tag, a, r)
-        if fn in ("mul", "mul_s"): return C02().oracle(fn, tag, a, r)
+        if fn == "mul": return C02().oracle(fn, tag, a, r)
+        if fn in ("mul_s", "rmul_s", "muleq_s"): return C02().oracle("mul_s", tag, a, r)
         if fn in ("div", "div_s"): return C03().oracle(fn, tag, a, r)
         if fn == "neg": return None if r == -a[0] else "neg"
     def nontrivial(self, fn, tag, a):
@@ -441,6 +478,16 @@ class C05(Suite):
             if abs(x) < 2**47 + 10: out.append("roundtrip_d %d" % x)
         for _ in range(n * 2):
             x = gen.strat(rng, 47); out.append("roundtrip_d %d" % x)
+        # double-rounding probes: raw values next to a float tie that a detour through double (or through a
+        # separately rounded integral part) lands exactly on the tie
+        for e in range(24, 63):
+            for _ in range(6 if tier == "quick" else 60):
+                k = rng.randrange(2**24, 2**25) | 1
+                tie = k << (e - 24) if e >= 24 else k
+                ds = {1, 2, 3} | ({(1 << (e - 53)) - 1, (1 << (e - 54))} if e >= 54 else set()) | ({(1 << (e - 25)) - 1} if e >= 26 else set())
+                for d in ds:
+                    for x in (tie + d, tie - d, -(tie + d), -(tie - d), tie, -tie):
+                        if abs(x) < 2**63 - 1: out.append("to_fp:f32 %d" % x); out.append("to_fp:f64 %d" % x)
         return out
     def nontrivial(self, fn, tag, a):
         if fn == "fp_to_fixed":
@@ -1014,6 +1061,9 @@ def c07_ops(rng, pool, scale):
     out = []
     extreme = [NANP, -NANP, F, -F, F - 1, 2**62, -2**62, 2**47, -2**47, 2**48 - 1, 2**48, 0, 1, -1, 65536, -65536, 2**31 * 65536]
     pick = extreme + rng.sample(vals, min(len(vals), 25 * scale)) + [gen.strat(rng) for _ in range(25 * scale)]
+    near_limit = [v for v in vals if abs(v) > 2**63 - 2**21]       # guards of the form `v <= max - k`
+    for x in near_limit:
+        for f in UNARY_FX: out.append("%s %d" % (f, x))
     for x in pick:
         for f in UNARY_FX: out.append("%s %d" % (f, x))
         for t in INT_TYPES: out.append("from_fixed:%s %d" % (t, x))
@@ -1059,7 +1109,7 @@ class C08(Suite):
     """value legs across configurations are all compared with the one model; the constant-evaluation leg
     (tools/check.py: constexpr_leg) compiles static_asserts derived from the model"""
     pid = "C08"; spec_module = "FixedMath.Spec.C08"; needs_abacus_leg = True; ub_sample = 2000
-    constexpr = True
+    constexpr = True; cross_leg = True
     def ops(self, tier, rng, pool):
         out = c07_ops(rng, pool, 1 if tier == "quick" else 4)
         n = 300 if tier == "quick" else 5000
